@@ -711,6 +711,11 @@ func (c *Client) receipts(ctx context.Context, url string, bm blockmap, start, l
 			return fmt.Errorf("rpc=%s %w", tag, resps[i].Error)
 		}
 	}
+	if uint64(len(resps)) != limit {
+		const tag = "eth_getBlockReceipts expected %d responses got %d"
+		return fmt.Errorf(tag, limit, len(resps))
+	}
+	var answered = map[uint64]struct{}{}
 	for i := range resps {
 		if resps[i].Result == nil {
 			const tag = "eth_getBlockReceipts"
@@ -721,9 +726,20 @@ func (c *Client) receipts(ctx context.Context, url string, bm blockmap, start, l
 			continue
 		}
 		blockNum := uint64(resps[i].Result[0].BlockNum)
-		if blockNum < start || blockNum > start+limit {
+		if blockNum < start || blockNum >= start+limit {
 			const tag = "eth_getBlockReceipts out of range block. num=%d start=%d lim=%d"
 			return fmt.Errorf(tag, blockNum, start, limit)
+		}
+		if _, dup := answered[blockNum]; dup {
+			const tag = "eth_getBlockReceipts answered twice for block %d"
+			return fmt.Errorf(tag, blockNum)
+		}
+		answered[blockNum] = struct{}{}
+		for j := range resps[i].Result {
+			if uint64(resps[i].Result[j].BlockNum) != blockNum {
+				const tag = "eth_getBlockReceipts returned a receipt of block %d among those of block %d"
+				return fmt.Errorf(tag, uint64(resps[i].Result[j].BlockNum), blockNum)
+			}
 		}
 		b, ok := bm[blockNum]
 		if !ok {
